@@ -13,6 +13,7 @@ package main
 
 import (
 	"encoding/json"
+	"flag"
 	"fmt"
 	"os"
 	"sort"
@@ -24,6 +25,7 @@ import (
 	"verif/core"
 	"verif/seqx"
 	"verif/sig"
+	"verif/vrt"
 )
 
 const groupG = `{"users":{"alice":{"password":"pa","permissions":"op"},"bob":{"password":"pb","permissions":"present"},"carol":{"password":"pc","permissions":"present"}}}`
@@ -383,6 +385,109 @@ func cfg(a string) seqx.Config {
 	return seqx.Config{Name: "views/" + a, Fresh: fresh(alphabets[a]), MaxDepth: d, Parallel: 1}
 }
 
+// converged compares every member's view with the actual membership.
+func converged(w *sig.World) (string, *core.Violation) {
+	out := ""
+	for k, c := range w.Clients {
+		if c.V.Closed || c.V.Group() == nil {
+			continue
+		}
+		g := c.V.Group()
+		isMember := false
+		want := map[string]sig.UserView{}
+		for _, m := range g.GetClients(nil) {
+			if m.Id() == c.ID {
+				isMember = true
+			}
+			perms := append([]string(nil), m.Permissions()...)
+			sort.Strings(perms)
+			want[m.Id()] = sig.UserView{Username: m.Username(), Permissions: perms}
+		}
+		if !isMember {
+			continue
+		}
+		for id, v := range c.View {
+			t, ok := want[id]
+			if !ok {
+				return "", viol("race/ghost-user", fmt.Sprintf("at quiescence c%d's user list contains %s (%s), which is not a member of %s", k, id, v.Username, g.Name()))
+			}
+			if fmt.Sprint(t.Permissions) != fmt.Sprint(v.Permissions) {
+				return "", viol("race/view-permissions-differ", fmt.Sprintf("at quiescence c%d sees %s with permissions %v, actual %v", k, id, v.Permissions, t.Permissions))
+			}
+		}
+		for id := range want {
+			if _, ok := c.View[id]; !ok {
+				return "", viol("race/member-missing-from-view", fmt.Sprintf("at quiescence c%d's user list lacks member %s of %s", k, id, g.Name()))
+			}
+		}
+		out += fmt.Sprintf("c%d:%d;", k, len(c.View))
+	}
+	return out, nil
+}
+
+func racePrograms() []sig.RaceProgram {
+	groups := map[string]string{"g": groupG, "h": groupH}
+	drain := func(w *sig.World, i int) {
+		for n := 0; n < 20; n++ {
+			o := w.Drain(i)
+			if !w.Clients[i].V.Signalled() || o.Panic != "" {
+				return
+			}
+		}
+	}
+	two := func(w *sig.World) {
+		w.Send(0, sig.Join("g", "alice", "pa"))
+		w.Send(1, sig.Join("g", "bob", "pb"))
+	}
+	ua := func(kind, dest string) sig.Msg {
+		return sig.Msg{"type": "useraction", "kind": kind, "source": "c0", "username": "alice", "dest": dest, "value": "x"}
+	}
+	leave := sig.Msg{"type": "join", "kind": "leave", "group": "g"}
+	mk := func(name string, setup func(*sig.World), names []string, ts ...func(w *sig.World)) sig.RaceProgram {
+		return sig.RaceProgram{Name: name, Groups: groups, Clients: 3, Setup: setup, MaxPreempt: core.Pick(2, 3),
+			Names: names, Threads: ts, Final: converged}
+	}
+	return []sig.RaceProgram{
+		mk("join-vs-leave", two, []string{"c2:join", "c1:leave"},
+			func(w *sig.World) { w.Send(2, sig.Join("g", "carol", "pc")); drain(w, 2) },
+			func(w *sig.World) { w.Send(1, leave) }),
+		mk("join-vs-disconnect-vs-drain", two, []string{"c2:join", "c1:disconnect", "c0:drain"},
+			func(w *sig.World) { w.Send(2, sig.Join("g", "carol", "pc")); drain(w, 2) },
+			func(w *sig.World) { w.Disconnect(1) },
+			func(w *sig.World) { drain(w, 0) }),
+		mk("join-vs-join", func(w *sig.World) { w.Send(0, sig.Join("g", "alice", "pa")) }, []string{"c1:join", "c2:join"},
+			func(w *sig.World) { w.Send(1, sig.Join("g", "bob", "pb")); drain(w, 1) },
+			func(w *sig.World) { w.Send(2, sig.Join("g", "carol", "pc")); drain(w, 2) }),
+		mk("unpresent-vs-leave", two, []string{"c0:unpresent c1", "c1:drain+leave"},
+			func(w *sig.World) { w.Send(0, ua("unpresent", "c1")) },
+			func(w *sig.World) { drain(w, 1); w.Send(1, leave) }),
+		mk("op-vs-unop-vs-join", two, []string{"c0:op,unop c1", "c1:drain", "c2:join"},
+			func(w *sig.World) { w.Send(0, ua("op", "c1")); w.Send(0, ua("unop", "c1")) },
+			func(w *sig.World) { drain(w, 1); drain(w, 1); drain(w, 1) },
+			func(w *sig.World) { w.Send(2, sig.Join("g", "carol", "pc")); drain(w, 2) }),
+		mk("kick-vs-join", two, []string{"c0:kick c1", "c1:drain", "c2:join"},
+			func(w *sig.World) { w.Send(0, ua("kick", "c1")) },
+			func(w *sig.World) { drain(w, 1) },
+			func(w *sig.World) { w.Send(2, sig.Join("g", "carol", "pc")); drain(w, 2) }),
+		mk("setdata-vs-leave-vs-join", two, []string{"c1:setdata+leave", "c2:join"},
+			func(w *sig.World) {
+				w.Send(1, sig.Msg{"type": "useraction", "kind": "setdata", "source": "c1", "username": "bob", "dest": "c1", "value": map[string]any{"k": "v"}})
+				w.Send(1, leave)
+			},
+			func(w *sig.World) { w.Send(2, sig.Join("g", "carol", "pc")); drain(w, 2) }),
+	}
+}
+
+func runRaces(res *core.Result, shard, shards int) {
+	sig.Scheduled = true
+	for _, p := range racePrograms() {
+		sub := vrt.Explore(p.Program("C14/race"), res, shard, shards)
+		sub.Name = "race/" + p.Name
+		res.AddSub(sub)
+	}
+	sig.Cleanup()
+}
+
 func main() {
 	t0 := time.Now()
 	o := core.ParseFlags(80, 1200)
@@ -392,8 +497,13 @@ func main() {
 		replay(o.Replay)
 		return
 	}
+	if o.Shard >= 0 && flag.Arg(0) == "race" {
+		runRaces(res, o.Shard, o.Shards)
+		core.Finish(res, t0)
+	}
 	if o.Shard < 0 {
 		core.RunShards(res, core.NCPU(), nil, nil)
+		core.RunShards(res, 4, []string{"race"}, nil)
 		res.Assume("each client's loop handles its queue to emptiness after a message unless the message is a lazy variant; detached goroutines fire at arbitrary later points (explicit task transitions)")
 		core.Finish(res, t0)
 	}
